@@ -433,7 +433,36 @@ def annotate_locals() -> dict[str, str]:
     return _apply(_AnnotateLocals)
 
 
+
+class _DeMorgan(ast.NodeTransformer):
+    """`not (a or b)` <-> `not a and not b`; `not (a and b)` <-> `not a or not b` (in `if` / `while` tests only)."""
+
+    def _flip(self, test: ast.expr) -> ast.expr:
+        if isinstance(test, ast.UnaryOp) and isinstance(test.op, ast.Not) and isinstance(test.operand, ast.BoolOp):
+            inner = test.operand
+            op = ast.And() if isinstance(inner.op, ast.Or) else ast.Or()
+            return ast.BoolOp(op=op, values=[_negate(v) for v in inner.values])
+        if isinstance(test, ast.BoolOp) and all(isinstance(v, ast.UnaryOp) and isinstance(v.op, ast.Not) for v in test.values):
+            op = ast.Or() if isinstance(test.op, ast.And) else ast.And()
+            return ast.UnaryOp(op=ast.Not(), operand=ast.BoolOp(op=op, values=[v.operand for v in test.values]))  # type: ignore[attr-defined]
+        return test
+
+    def visit_If(self, node: ast.If) -> ast.AST:
+        self.generic_visit(node)
+        node.test = self._flip(node.test)
+        return node
+
+    def visit_While(self, node: ast.While) -> ast.AST:
+        self.generic_visit(node)
+        node.test = self._flip(node.test)
+        return node
+
+
+def demorgan() -> dict[str, str]:
+    return _apply(_DeMorgan)
+
+
 GENERIC = {"reformat-all-modules": reformat, "shift-statements": shift, "rename-locals": rename_locals,
            "rename-locals-deep": rename_locals_deep, "return-temp": return_temp, "extract-kwarg-temps": extract_kwarg_temps,
            "swap-if-else": swap_if_else, "split-and": split_and, "early-return": early_return,
-           "annotate-locals": annotate_locals}
+           "annotate-locals": annotate_locals, "demorgan": demorgan}
